@@ -11,11 +11,10 @@ Definition operand_value (st : state) (r : operand) : option Z :=
 Definition loaded (nm : names) (st : state) (ints : list Z) : Prop :=
   forall z, In z ints -> sc st (int_score nm z) = Some z.
 
-(* literals accepted: any int32; for += and -= the literal INT_MIN is excluded
-   (C01_refuted_intmin shows the emitted command is not well-formed there). *)
+(* literals accepted: any int32 *)
 Definition lit_ok (o : vop) (r : operand) : Prop :=
   match r with
-  | OLit z => in_int32 z /\ ((o = VAdd \/ o = VSub) -> z <> INT_MIN)
+  | OLit z => in_int32 z
   | _ => True
   end.
 
@@ -26,6 +25,7 @@ Definition other_side (nm : names) (o : vop) (r : operand) : option score :=
   | OScore s => Some s
   | OLit z => match o with
               | VMul | VDiv | VMod | VSwap | VMin | VMax => Some (int_score nm z)
+              | VAdd | VSub => if z =? INT_MIN then Some (int_score nm z) else None
               | _ => None end
   | ONone => None
   end.
@@ -150,7 +150,9 @@ Section Correct.
     intros Hc Hl Hld Ht Hinv.
     assert (Hti : forall z, int_score nm z <> t).
     { intros z E. apply Ht. rewrite <- E. reflexivity. }
-    destruct o, r as [z|s|]; cbn in Hc; try discriminate; injection Hc as <- <-.
+    destruct o, r as [z|s|]; cbn in Hc; try discriminate.
+    all: try match type of Hc with context [?zz =? INT_MIN] => destruct (zz =? INT_MIN) eqn:Em end.
+    all: injection Hc as <- <-.
     all: try (assert (Hz : sc st (int_score nm z) = Some z) by (apply Hld; cbn; auto)).
     (* binary operations through `scoreboard players operation` *)
     all: try (split; [reflexivity|]; eexists; split; [apply exec_op_list|];
@@ -159,24 +161,38 @@ Section Correct.
               | unfold rd, rd0; cbn [sop_of sop_meaning meaning operand_value]; rewrite ?Hz; reflexivity
               | split; intros; first [discriminate | reflexivity] ]).
     - (* = lit *)
-      destruct Hl as [Hr _]. split; [cbn; rewrite (proj2 (in_int32b_spec z) Hr); reflexivity|].
+      rename Hl into Hr. split; [cbn; rewrite (proj2 (in_int32b_spec z) Hr); reflexivity|].
       eexists; split; [reflexivity|]. apply set_case; [reflexivity|discriminate|reflexivity].
+    - (* += INT_MIN *)
+      split; [reflexivity|]. eexists; split; [apply exec_op_list|].
+      apply op_case; [cbn; now rewrite Em
+                      | unfold rd, rd0; cbn [sop_of sop_meaning meaning operand_value]; rewrite Hz; reflexivity
+                      | split; intros; discriminate].
     - (* += lit *)
-      destruct Hl as [Hr Hm]. destruct (z <? 0) eqn:Ez.
+      rename Hl into Hr. apply Z.eqb_neq in Em. destruct (z <? 0) eqn:Ez.
       + apply Z.ltb_lt in Ez. split; [cbn; rewrite wf_add_neg; auto|].
-        eexists; split; [reflexivity|]. apply set_case; [reflexivity|discriminate|].
+        eexists; split; [reflexivity|].
+        apply set_case; [cbn; now rewrite (proj2 (Z.eqb_neq _ _) Em)|discriminate|].
         cbn. unfold rd, rd0. f_equal; lia.
       + apply Z.ltb_ge in Ez. split; [cbn; rewrite wf_add_nonneg; auto|].
-        eexists; split; [reflexivity|]. apply set_case; [reflexivity|discriminate|reflexivity].
+        eexists; split; [reflexivity|].
+        apply set_case; [cbn; now rewrite (proj2 (Z.eqb_neq _ _) Em)|discriminate|reflexivity].
+    - (* -= INT_MIN *)
+      split; [reflexivity|]. eexists; split; [apply exec_op_list|].
+      apply op_case; [cbn; now rewrite Em
+                      | unfold rd, rd0; cbn [sop_of sop_meaning meaning operand_value]; rewrite Hz; reflexivity
+                      | split; intros; discriminate].
     - (* -= lit *)
-      destruct Hl as [Hr Hm]. destruct (z <? 0) eqn:Ez.
+      rename Hl into Hr. apply Z.eqb_neq in Em. destruct (z <? 0) eqn:Ez.
       + apply Z.ltb_lt in Ez. split; [cbn; rewrite wf_add_neg; auto|].
-        eexists; split; [reflexivity|]. apply set_case; [reflexivity|discriminate|].
+        eexists; split; [reflexivity|].
+        apply set_case; [cbn; now rewrite (proj2 (Z.eqb_neq _ _) Em)|discriminate|].
         cbn. unfold rd, rd0. f_equal; lia.
       + apply Z.ltb_ge in Ez. split; [cbn; rewrite wf_add_nonneg; auto|].
-        eexists; split; [reflexivity|]. apply set_case; [reflexivity|discriminate|reflexivity].
+        eexists; split; [reflexivity|].
+        apply set_case; [cbn; now rewrite (proj2 (Z.eqb_neq _ _) Em)|discriminate|reflexivity].
     - (* ??= lit *)
-      destruct Hl as [Hr _]. destruct (z =? 0) eqn:Ez.
+      rename Hl into Hr. destruct (z =? 0) eqn:Ez.
       + apply Z.eqb_eq in Ez. subst z. split; [reflexivity|].
         eexists; split; [reflexivity|]. apply set_case; [reflexivity|discriminate|].
         cbn. unfold rd. destruct (sc st t) eqn:Et; cbn; [|reflexivity].
